@@ -105,4 +105,39 @@ def partial_cmp (a b : Zoned) : Option Int := some (NaiveDT.cmp a.utc b.utc)
 -- `Zoned.eq` of Model/ZonedOps.lean
 end Zoned
 
+/-! ### `a - b` operator forms (second review, gap G5) -/
+namespace Date
+/-- `impl Sub<NaiveDate> for NaiveDate`: `self.signed_duration_since(rhs)` -/
+def sub_date (a b : Date) : Res Delta := signed_duration_since a b
+end Date
+namespace NaiveDT
+/-- `impl Sub<NaiveDateTime> for NaiveDateTime`: `self.signed_duration_since(rhs)` -/
+def sub_dt (a b : NaiveDT) : Res Delta := signed_duration_since a b
+end NaiveDT
+namespace Zoned
+/-- `impl Sub<DateTime<Tz>> for DateTime<Tz>`: `self.signed_duration_since(rhs)` -/
+def sub_zoned (a b : Zoned) : Res Delta := signed_duration_since a b
+/-- `impl Sub<&DateTime<Tz>> for DateTime<Tz>`: the same body, the operand borrowed -/
+def sub_zoned_ref (a b : Zoned) : Res Delta := signed_duration_since a b
+end Zoned
+
+/-! ### the derived comparisons of `NaiveDateTime` (second review, gap G2)
+`#[derive(PartialEq, Eq, PartialOrd, Ord)] pub struct NaiveDateTime { date: NaiveDate, time: NaiveTime }`,
+`NaiveDate { yof: NonZeroI32 }`, `NaiveTime { secs: u32, frac: u32 }`: field by field in declaration
+order (the derive lines and the field order are pinned in Pins/C03.lean). -/
+namespace NaiveDT
+/-- derived `PartialOrd::partial_cmp`: lexicographic over the fields, always `Some` -/
+def partial_cmp (a b : NaiveDT) : Option Int :=
+  match Date.cmp a.date b.date with
+  | 0 => some (Time.cmp a.time b.time)
+  | c => some c
+/-- derived `PartialEq::eq`: all fields equal -/
+def eq (a b : NaiveDT) : Bool :=
+  decide (a.date.yof = b.date.yof) && (decide (a.time.secs = b.time.secs) && decide (a.time.frac = b.time.frac))
+/-- `<` (`PartialOrd::lt` default): `partial_cmp == Some(Less)` -/
+def lt (a b : NaiveDT) : Bool := partial_cmp a b == some (-1)
+/-- `Ord::max` default: `if other < self { self } else { other }` -/
+def max (a b : NaiveDT) : NaiveDT := if lt b a then a else b
+end NaiveDT
+
 end Chrono.M
